@@ -56,7 +56,7 @@ CHECKS["C06"] = dict(
     exhaustive_note="all trees with <= N nodes x all reachable (cursor, parser memory) states x all protocol-following calls",
     assumptions=["the reference cursor in harness/vh.c (vc_*) is the sequential specification", "64-bit state hashes: a collision could hide a state (probability < 1e-9 per run)"],
     jobs=[dict(name="c06x", src=WALK, build="gasan", mode="c06x", cases=(28506, 2450522), opt=("6", "8"), require=["product_states", "transitions"]),
-          dict(name="c06r", src=WALK, build="gasan", mode="c06r", cases=(200000, 5000000), require=["calls"])],
+          dict(name="c06r", src=WALK, build="gasan", mode="c06r", cases=(600000, 6000000), require=["calls"])],
 )
 
 CHECKS["C07"] = dict(
@@ -72,7 +72,7 @@ CHECKS["C07"] = dict(
     assumptions=["reference cursor vc_field is the specification of a lookup", "lookups are issued only inside objects"],
     jobs=[dict(name="c07x", src=WALK, build="gasan", mode="c07x", cases=(28506, 2450522), opt=("6", "8"), require=["product_states", "lookups_found", "lookups_absent", "wrong_type_raised"]),
           dict(name="c07h", src=WALK, build="gasan", mode="c07x", cases=(28506, 259674), opt=("6 hostile", "7 hostile"), require=["product_states", "lookups_found", "lookups_absent"]),
-          dict(name="c07r", src=WALK, build="gasan", mode="c07r", cases=(200000, 5000000), require=["calls", "lookups_found", "lookups_absent"])],
+          dict(name="c07r", src=WALK, build="gasan", mode="c07r", cases=(600000, 6000000), require=["calls", "lookups_found", "lookups_absent"])],
 )
 
 CHECKS["C10"] = dict(
@@ -84,7 +84,7 @@ CHECKS["C10"] = dict(
          "binson_write_* call into an exact-size destination; output must equal the input bytes. The transcriber is driven only by the parser's answers. "
          "non-trivial = document with >= 2 nodes; distinct = hash(document bytes)",
     assumptions=["documents come from the independent encoder or the shipped corpus"],
-    jobs=[dict(name="c10", src=WALK, build="gasan", mode="c10", cases=(300000, 6000000), require=["bytes_transcribed", "corpus_documents"])],
+    jobs=[dict(name="c10", src=WALK, build="gasan", mode="c10", cases=(500000, 6000000), require=["bytes_transcribed", "corpus_documents"])],
 )
 
 CHECKS["C11"] = dict(
@@ -98,7 +98,7 @@ CHECKS["C11"] = dict(
     exhaustive_note="all trees with <= N nodes x all reachable product states with get_raw/to_writer in the alphabet",
     assumptions=["reference cursor + encoder spans are the specification"],
     jobs=[dict(name="c11x", src=WALK, build="gasan", mode="c11x", cases=(28506, 2450522), opt=("6", "8"), require=["product_states", "raw_spans_checked", "to_writer_checked", "raw_on_scalar"]),
-          dict(name="c11r", src=WALK, build="gasan", mode="c11r", cases=(200000, 5000000), require=["calls", "raw_spans_checked", "to_writer_checked"])],
+          dict(name="c11r", src=WALK, build="gasan", mode="c11r", cases=(600000, 6000000), require=["calls", "raw_spans_checked", "to_writer_checked"])],
 )
 
 CHECKS["C02"] = dict(
@@ -115,7 +115,7 @@ CHECKS["C02"] = dict(
     assumptions=["vrecognise (harness/vh.c) is the reading of the specification: root counts as level 1 for either root kind, array nesting counted per object level, <= 255",
                  "UTF-8 validity of strings is not part of the property"],
     jobs=[dict(name="c02e", src=["w_verify.c", "vh.c"], build="gasan", mode="c02e", cases=(2625641, 105025641), opt=("4", "5"), require=["verify_accepted", "verify_rejected", "depth_first_obstacle"]),
-          dict(name="c02r", src=["w_verify.c", "vh.c"], build="gasan", mode="c02r", cases=(400000, 8000000), require=["accepted", "rejected", "corpus_runs", "ladder_batches", "depth_first_obstacle"])],
+          dict(name="c02r", src=["w_verify.c", "vh.c"], build="gasan", mode="c02r", cases=(1000000, 8000000), require=["accepted", "rejected", "corpus_runs", "ladder_batches", "depth_first_obstacle"])],
 )
 ENGINE_NOTES["w_verify.c"] = "verify vs independent recogniser: exhaustive token enumeration, nesting ladders, corpus, mutants (gcc ASan+UBSan)"
 
@@ -201,7 +201,7 @@ CHECKS["C08"] = dict(
     rule="one case = one byte string x max_depth (also at/below/above the needed depth) x root kind, traversed by every strategy; success = init, every go_into/leave/get_raw/to_writer true and error NONE after the top-level leave "
          "(next/lookup answering false are answers). non-trivial = >= 3 bytes; distinct = hash(bytes, root kind, max_depth). Traversals ended by the step cap (4*size+64 calls) are counted as inconclusive, not judged",
     assumptions=["verify's own verdict is tied to the specification by C02"],
-    jobs=[dict(name="c08", src=STREAM, build="gasan", mode="c08", cases=(300000, 6000000), require=["documents_valid", "documents_invalid", "traversals"])],
+    jobs=[dict(name="c08", src=STREAM, build="gasan", mode="c08", cases=(1000000, 8000000), require=["documents_valid", "documents_invalid", "traversals"])],
 )
 CHECKS["C09"] = dict(
     level_text="Parser: every error class (RANGE by truncation, FORMAT by mutation, WRONG_TYPE by _ensure calls, STATE by get_name in a root array, MAX_DEPTH_OBJECT/ARRAY by ladders, NULL by field_with_length(NULL)) "
@@ -232,7 +232,7 @@ CHECKS["C12"] = dict(
          "c12w: one case = (list A at capacity a) x (init | init same buffer | reset) x (list B). non-trivial = a comparable pair was executed; distinct = hash(documents, restart kind, depth, script)",
     assumptions=["the caller restores state pointer and max_depth after overwriting the struct with garbage (they are caller-owned configuration)",
                  "spans are compared as offsets into the input buffer"],
-    jobs=[dict(name="c12p", src=["w_reuse.c", "vh.c"], build="gasan", mode="c12p", cases=(500000, 10000000), require=["script_calls", "restart_init", "restart_reset", "restart_verify", "restart_after_error", "restart_after_garbage", "verify_true_restarts"]),
+    jobs=[dict(name="c12p", src=["w_reuse.c", "vh.c"], build="gasan", mode="c12p", cases=(1000000, 10000000), require=["script_calls", "restart_init", "restart_reset", "restart_verify", "restart_after_error", "restart_after_garbage", "verify_true_restarts"]),
           dict(name="c12w", src=WRITER, build="gasan", mode="c12w", cases=(300000, 5000000), require=["reuse_after_init", "reuse_after_reset", "reuse_after_error", "reset_refused_small"])],
 )
 
@@ -264,7 +264,7 @@ CHECKS["C14"] = dict(
     exhaustive_note="all container-rooted trees with <= N nodes over {int,bool,object,array} (N=6 quick: 28506 trees, N=7 thorough: 259674 trees)",
     assumptions=["vt_render in harness/vh.c is the reference rendering of the statement"],
     jobs=[dict(name="c14x", src=TEXT, build="gasan", mode="c14x", cases=(28506, 259674), opt=("6", "7"), require=["texts_compared", "print_outputs_compared"]),
-          dict(name="c14r", src=TEXT, build="gasan", mode="c14r", cases=(200000, 4000000), require=["texts_compared", "print_outputs_compared"])],
+          dict(name="c14r", src=TEXT, build="gasan", mode="c14r", cases=(500000, 4000000), require=["texts_compared", "print_outputs_compared"])],
 )
 
 CPPLIB = ["binson_parser.c", "binson_writer.c", "binson.cpp"]
